@@ -66,4 +66,15 @@ def coreOverflow (c : Nat) : Bool :=
   let word := c % 2^23
   decide (word ≠ 0 ∧ (size > 34 ∨ (word > 0xff ∧ size > 33) ∨ (word > 0xffff ∧ size > 32)))
 
+/-- A *canonical* compact value — exactly the values `GetCompact` produces for non-negative numbers below
+    2^2016: the sign bit is clear and either everything is zero, or the size byte is at least 1 and the 23-bit
+    mantissa has a non-zero top byte (0x008000 ≤ m ≤ 0x7fffff); for sizes 1 and 2 the mantissa bytes that
+    `SetCompact` shifts out are zero. -/
+def Canonical (c : Nat) : Prop :=
+  c < 2^32 ∧ (c / 2^23) % 2 = 0 ∧
+  (c / 2^24 = 0 → c % 2^23 = 0) ∧ (1 ≤ c / 2^24 → 2^15 ≤ c % 2^23) ∧
+  (c / 2^24 = 1 → c % 2^23 % 2^16 = 0) ∧ (c / 2^24 = 2 → c % 2^23 % 2^8 = 0)
+
+instance (c : Nat) : Decidable (Canonical c) := by unfold Canonical; infer_instance
+
 end GocoinV.Target
